@@ -59,6 +59,16 @@ impl<A: AttributeBind + AttributeUpdate> UnknownAttributeStorage for AttrSparseV
         lhs_inp: DartIdType,
         rhs_inp: DartIdType,
     ) -> TransactionClosureResult<(), AttributeError> {
+        if lhs_inp == rhs_inp {
+            // both identifiers designate the same cell: there is nothing to merge, the cell
+            // keeps its value (combining it with itself would alter non-idempotent attributes)
+            if out != lhs_inp {
+                let v = self.data[lhs_inp as usize].read(trans)?;
+                self.data[lhs_inp as usize].write(trans, None)?;
+                self.data[out as usize].write(trans, v)?;
+            }
+            return Ok(());
+        }
         let new_v = match (
             self.data[lhs_inp as usize].read(trans)?,
             self.data[rhs_inp as usize].read(trans)?,
@@ -85,6 +95,15 @@ impl<A: AttributeBind + AttributeUpdate> UnknownAttributeStorage for AttrSparseV
         rhs_out: DartIdType,
         inp: DartIdType,
     ) -> TransactionClosureResult<(), AttributeError> {
+        if lhs_out == rhs_out {
+            // both identifiers designate the same cell: it was not split, it keeps its value
+            if lhs_out != inp {
+                let v = self.data[inp as usize].read(trans)?;
+                self.data[inp as usize].write(trans, None)?;
+                self.data[lhs_out as usize].write(trans, v)?;
+            }
+            return Ok(());
+        }
         let res = if let Some(val) = self.data[inp as usize].read(trans)? {
             AttributeUpdate::split(val)
         } else {
